@@ -4,7 +4,8 @@
 //! the derivative of every rational expression of the inputs.  Transcendental functions are
 //! *uninterpreted*: `ln`, `exp`, `powf(·, e)` return an arbitrary field value (memoised per
 //! argument, so the same argument always gives the same value) and carry only their derivative
-//! rule:  d ln(x) = dx/x,  d exp(x) = exp(x) dx,  d x^e = e·x^e/x dx (constant exponent).
+//! rule:  d ln(x) = dx/x,  d exp(x) = exp(x) dx,  d x^e = e·x^e/x dx (constant exponent);
+//! ln additionally satisfies ln(1/x) = -ln(x) (needed by the exponential cone's third-order term).
 //! An identity "stored gradient = derivative of the barrier" that the code satisfies over the
 //! reals is a consequence of these rules alone, hence holds for every interpretation — in
 //! particular for the arbitrary one chosen by the solver; conversely a wrong term or sign is found
@@ -66,9 +67,21 @@ impl<const P: u16> Jet<P> {
     pub fn constant(a: Fp<P>) -> Self {
         Jet { a, b: Fp(0) }
     }
-    /// uninterpreted ln on the value part
+    /// uninterpreted ln on the value part, with the one law the cone code relies on: ln(1/x) = -ln(x)
+    /// (the exponential cone's gradient uses ln(-z3/z1), its third-order correction ln(-z1/z3)).
+    /// The memo is keyed by the smaller representative of {x, 1/x}.
     pub fn ln_value(a: Fp<P>) -> Fp<P> {
-        unsafe { Fp(memo1::<P>(&mut *std::ptr::addr_of_mut!(LN_KEY), &mut *std::ptr::addr_of_mut!(LN_VAL), &mut *std::ptr::addr_of_mut!(LN_N), a.0)) }
+        let ia = a.inv_det();
+        if a.0 == ia.0 {
+            return Fp(0); // x = 1/x: ln must be its own negative
+        }
+        let (key, flip) = if a.0 < ia.0 { (a.0, false) } else { (ia.0, true) };
+        let v = unsafe { Fp::<P>(memo1::<P>(&mut *std::ptr::addr_of_mut!(LN_KEY), &mut *std::ptr::addr_of_mut!(LN_VAL), &mut *std::ptr::addr_of_mut!(LN_N), key)) };
+        if flip {
+            -v
+        } else {
+            v
+        }
     }
     pub fn exp_value(a: Fp<P>) -> Fp<P> {
         unsafe { Fp(memo1::<P>(&mut *std::ptr::addr_of_mut!(EXP_KEY), &mut *std::ptr::addr_of_mut!(EXP_VAL), &mut *std::ptr::addr_of_mut!(EXP_N), a.0)) }
